@@ -407,6 +407,35 @@ fn judge(scn: &Scenario, res: &ExecResult<Observed>) -> Result<Judged, String> {
     }
 }
 
+fn model_cfg(scn: &Scenario) -> crate::c13m::Cfg {
+    crate::c13m::Cfg {
+        workers: scn.workers,
+        errors: scn.errors,
+        rounds: scn.rounds,
+        interval_zero: scn.interval_zero,
+        budget: scn.budget,
+        panic_in_decoder: scn.inject == Inject::DecoderPanic,
+    }
+}
+
+/// The scripted outcome of a frame, in the vocabulary of the protocol model.
+fn model_kind(scn: &Scenario, round: usize, w: usize, f: usize) -> crate::c13m::Kind {
+    use crate::c13m::Kind;
+    match scn.inject {
+        Inject::StageErr => return Kind::StageErr,
+        Inject::InterleaverPanic | Inject::Psk8Panic => return Kind::Panic,
+        _ => {}
+    }
+    let fr = scn.frame(round, w, f);
+    if fr.panic {
+        Kind::Panic
+    } else if (scn.bch > 0 && fr.flips as u64 > scn.bch) || (scn.bch == 0 && fr.flips > 0) {
+        Kind::Bad
+    } else {
+        Kind::Good
+    }
+}
+
 #[derive(Default)]
 struct ExploreStats {
     executions: u64,
@@ -417,6 +446,10 @@ struct ExploreStats {
     deadlocks: u64,
     complete: bool,
     determinism_checks: u64,
+    /// executions replayed through the protocol model / disagreements (first one kept)
+    conf_checked: u64,
+    conf_mismatches: u64,
+    conf_first: Option<String>,
 }
 
 /// Runs one schedule prefix, judges it, returns the child prefixes within the bound.
@@ -457,6 +490,22 @@ fn step(scn: &Arc<Scenario>, bound: usize, prefix: &[usize], count: bool, st: &m
     if let Ok(j) = &verdict {
         st.arrival_orders.insert(hash64(&j.arrival));
         st.outcomes.insert(hash64(&j.outcome_tag));
+    }
+    if !scn.drop_points {
+        if let Outcome::Done(Ok(o)) = &res.outcome {
+            st.conf_checked += 1;
+            let real_ok = match &o.ret {
+                Ok(Ok(_)) => Some(true),
+                Ok(Err(_)) => Some(false),
+                Err(_) => None,
+            };
+            if let Err(e) = crate::c13m::conform(&model_cfg(scn), &res.decisions, &res.log, &|r, w, f| model_kind(scn, r, w, f), real_ok) {
+                st.conf_mismatches += 1;
+                if st.conf_first.is_none() {
+                    st.conf_first = Some(format!("{} [scenario {} schedule {:?}]", e, scn.id, choices));
+                }
+            }
+        }
     }
     if st.executions % 256 == 1 {
         st.determinism_checks += 1;
@@ -703,6 +752,7 @@ pub fn worker(arg: &str) -> i32 {
         "arrival_orders": st.arrival_orders.iter().collect::<Vec<_>>(),
         "outcomes": st.outcomes.iter().collect::<Vec<_>>(),
         "deadlocks": st.deadlocks, "complete": st.complete, "determinism_checks": st.determinism_checks,
+        "conf_checked": st.conf_checked, "conf_mismatches": st.conf_mismatches, "conf_first": st.conf_first,
         "evals": acc.evals, "nontrivial": acc.nontrivial, "viol_total": acc.viol_total,
         "viols": acc.viols.iter().map(|x| json!({"key": x.key, "text": x.text, "replay": x.replay})).collect::<Vec<_>>(),
         "samples": acc.samples,
@@ -735,7 +785,7 @@ fn run_jobs(jobs: Vec<Job>, budget_s: f64, global_s: f64) -> Vec<Value> {
                 // global wall-clock cap of the whole check: what does not fit is reported as not completed
                 let left = global_s - t_start.elapsed().as_secs_f64();
                 if left < 1.0 {
-                    results.lock().unwrap().push(json!({"scenario": j.scenario, "bound": j.bound, "shard": j.shard, "executions": 0, "decisions": 0, "max_decisions": 0, "arrival_orders": [], "outcomes": [], "deadlocks": 0, "complete": false, "determinism_checks": 0, "evals": 0, "nontrivial": 0, "viol_total": 0, "viols": [], "samples": [], "acc_outcomes": []}));
+                    results.lock().unwrap().push(json!({"scenario": j.scenario, "bound": j.bound, "shard": j.shard, "executions": 0, "decisions": 0, "max_decisions": 0, "arrival_orders": [], "outcomes": [], "deadlocks": 0, "complete": false, "determinism_checks": 0, "conf_checked": 0, "conf_mismatches": 0, "conf_first": null, "evals": 0, "nontrivial": 0, "viol_total": 0, "viols": [], "samples": [], "acc_outcomes": []}));
                     continue;
                 }
                 let arg = json!({"scenario": j.scenario, "bound": j.bound, "shard": j.shard, "nshards": j.nshards, "budget_s": budget_s.min(left), "cpu": cpu}).to_string();
@@ -839,6 +889,10 @@ pub fn run(run: &Run) -> i32 {
             }
             acc.outcomes.extend(r["acc_outcomes"].as_array().unwrap().iter().map(|x| x.as_u64().unwrap()));
         }
+        let conf_checked: u64 = results.iter().map(|r| r["conf_checked"].as_u64().unwrap_or(0)).sum();
+        let conf_mismatches: u64 = results.iter().map(|r| r["conf_mismatches"].as_u64().unwrap_or(0)).sum();
+        let conf_first: Option<String> = results.iter().filter_map(|r| r["conf_first"].as_str().map(|s| s.to_string())).min();
+        extra.insert("protocol_model".into(), protocol_model(run.thorough(), conf_checked, conf_mismatches, conf_first));
         let mut rows = Vec::new();
         for (id, e) in &per {
             graph.0 += e.1;
@@ -877,6 +931,83 @@ pub fn run(run: &Run) -> i32 {
             ],
         },
     )
+}
+
+/// Explores the protocol model (see c13m.rs) for the worker counts the real-code explorer
+/// cannot reach, provided every real execution explored in this run agreed with the model.
+fn protocol_model(thorough: bool, checked: u64, mismatches: u64, first: Option<String>) -> Value {
+    use crate::c13m::{explore as mexplore, Cfg, Kind};
+    if mismatches > 0 || checked == 0 {
+        // not a verdict on the property: the model simply no longer describes this code
+        println!("NOTE C13: the protocol model is not bound to this code ({} of {} executions disagree); its results are not claimed. First disagreement: {}", mismatches, checked, first.clone().unwrap_or_default());
+        return json!({"bound_to_code": false, "executions_replayed_through_model": checked, "disagreements": mismatches, "first_disagreement": first, "claimed": false});
+    }
+    let t0 = std::time::Instant::now();
+    let mut rows = Vec::new();
+    let mut all = true;
+    let wmax = if thorough { 6 } else { 5 };
+    let mut cfgs: Vec<(Cfg, Vec<Kind>)> = Vec::new();
+    for w in 1..=wmax {
+        for e in 0..=if w <= 4 { 3u64 } else { 2 } {
+            for iz in [false, true] {
+                if !thorough && w == 5 && (e == 0 || iz) {
+                    continue;
+                }
+                let budget = match (thorough, w) {
+                    (_, 1..=2) => 3,
+                    (true, 3) => 3,
+                    (false, 3) => 2,
+                    (true, 4..=5) => 2,
+                    _ => 1,
+                };
+                cfgs.push((Cfg { workers: w, errors: e, rounds: 1, interval_zero: iz, budget, panic_in_decoder: true }, vec![Kind::Good, Kind::Bad]));
+                // worker failures: stage error and panic as further frame outcomes
+                if w <= 4 && (thorough || w <= 3 || !iz) {
+                    let b = if w <= 2 { 2 } else { 1 };
+                    cfgs.push((Cfg { workers: w, errors: e, rounds: 1, interval_zero: iz, budget: b, panic_in_decoder: true }, vec![Kind::Good, Kind::Bad, Kind::StageErr, Kind::Panic]));
+                }
+            }
+        }
+        if w <= 3 {
+            cfgs.push((Cfg { workers: w, errors: 1, rounds: 2, interval_zero: false, budget: 2, panic_in_decoder: true }, vec![Kind::Good, Kind::Bad]));
+        }
+    }
+    let cap = if thorough { 80_000_000 } else { 8_000_000 };
+    let results: Vec<(usize, Result<crate::c13m::ModelStats, String>)> = {
+        use rayon::prelude::*;
+        cfgs.par_iter().enumerate().map(|(i, (c, k))| (i, mexplore(c, k, cap))).collect()
+    };
+    let mut model_violation: Option<String> = None;
+    for (i, r) in results {
+        let (c, k) = &cfgs[i];
+        let id = format!("W{}-E{}-R{}-{}-budget{}-{}", c.workers, c.errors, c.rounds, if c.interval_zero { "int0" } else { "int1h" }, c.budget, if k.len() > 2 { "with-failures" } else { "frames-only" });
+        match r {
+            Ok(st) => {
+                all &= st.complete;
+                rows.push(json!({"config": id, "states": st.states, "transitions": st.transitions, "terminal_states_ok": st.terminal_ok, "terminal_states_err": st.terminal_err, "max_depth": st.max_depth, "completed": st.complete}));
+            }
+            Err(e) => {
+                model_violation.get_or_insert(format!("{}: {}", id, e));
+            }
+        }
+    }
+    if let Some(v) = &model_violation {
+        // the model is bound to the code on everything replayed, and the model deadlocks: that is a
+        // prediction about the code at a size the explorer did not reach; it is reported, not judged
+        println!("NOTE C13: the protocol model (bound to the code on {} executions) reaches a bad state: {}", checked, v);
+    }
+    json!({
+        "bound_to_code": true,
+        "executions_replayed_through_model": checked,
+        "disagreements": 0,
+        "conformance": "every completed execution of the real BerTest::run explored above (scenarios without the -dp granularity) was replayed through the model decision by decision: same deciding thread, same own-operation enabledness, same ordered enabled list at every scheduling decision, same sequence of operations with results and channel numbers, same Ok/Err return",
+        "exploration": "explicit-state DFS with full-state hashing over the model alone: every interleaving (no preemption bound), every frame outcome chosen nondeterministically below the frame budget (frames at or beyond it are forced to count, which makes every path finite); checked in every state: some thread is enabled unless the collector has returned; in every terminal state: every worker has exited (been joined)",
+        "configs": rows,
+        "all_completed": all,
+        "bad_state": model_violation,
+        "wall_s": t0.elapsed().as_secs_f64(),
+        "claimed": model_violation.is_none(),
+    })
 }
 
 #[allow(dead_code)]
